@@ -565,6 +565,9 @@ def _returns_call(b, call_bb):
             if t[0] == 'field' and t[2] == '0' and t[1][0] == 'as' and t[1][2] == 'Continue' and t[1][1][0] == 'call' and t[1][1][4].endswith('::branch'):
                 t = t[1][1][2][0]
                 continue
+            if t[0] == 'field' and t[2] == '0' and t[1][0] == 'as' and t[1][2] in ('Ok', 'Some'):
+                t = t[1][1]             # the payload bound by an explicit `match call { Ok(x) => .., Err(e) => Err(e) }`
+                continue
             return False
         return False
     dest = b.blocks[call_bb]['term']['dest']
